@@ -44,7 +44,10 @@ func ite[T any](c bool, a, b T) T {
 	}
 	return b
 }
-func vassert(b bool) {}
+func vassert(b bool)                {}
+func isSuffix[T any](a, b []T) bool { return true }
+func traceBytes(k int) []byte       { return nil }
+func ncalls() int                   { return 0 }
 
 // ---- big-endian readers (total: out-of-range reads are arbitrary in the logic, 0 at run time) ----
 
@@ -253,3 +256,49 @@ func specCCBlocksLen(bs []CCFeedbackReportBlock, n int) int {
 	}
 	return specCCBlocksLen(bs, n-1) + specCCBlockLen(len(bs[n-1].MetricBlocks))
 }
+
+// ---- RFC 3550 section 6.1: compound packets ----
+
+func specItemsHaveCNAME(items []SourceDescriptionItem, n int) bool {
+	if n <= 0 {
+		return false
+	}
+	return specItemsHaveCNAME(items, n-1) || items[n-1].Type == SDESCNAME
+}
+
+func specChunksHaveCNAME(chunks []SourceDescriptionChunk, n int) bool {
+	if n <= 0 {
+		return false
+	}
+	return specChunksHaveCNAME(chunks, n-1) || specItemsHaveCNAME(chunks[n-1].Items, len(chunks[n-1].Items))
+}
+
+// specScan: from position j on, only receiver reports precede a source description that carries a CNAME.
+func specScan(c []Packet, j, n int) bool {
+	if j >= n {
+		return false
+	}
+	switch p := c[j].(type) {
+	case *ReceiverReport:
+		return specScan(c, j+1, n)
+	case *SourceDescription:
+		return specChunksHaveCNAME(p.Chunks, len(p.Chunks))
+	default:
+		return false
+	}
+}
+
+func specFirstIsReport(c []Packet) bool {
+	if len(c) == 0 {
+		return false
+	}
+	switch c[0].(type) {
+	case *SenderReport, *ReceiverReport:
+		return true
+	default:
+		return false
+	}
+}
+
+// specCompoundValid is the sentence of RFC 3550 section 6.1 as stated in property C11.
+func specCompoundValid(c []Packet) bool { return specFirstIsReport(c) && specScan(c, 1, len(c)) }
